@@ -1498,7 +1498,7 @@ Proof. exact lazy_converse_nonvacuous. Qed.
 (* ==== the BCF FILE: header block + record loop (NV.Bcf.File) ==== *)
 From NV Require Import Text.TextBase Vcf.Values Vcf.Line Vcf.Header Vcf.HeaderProofs Vcf.HdrFrameProofs Vcf.File.
 From NV Require Import Bcf.Ints Bcf.Typed Bcf.Strings Bcf.Genotype Bcf.StringMap Bcf.StringMapProofs Bcf.Record
-  Bcf.RecordTyped Bcf.Bridge Bcf.BridgeProofs Bcf.ColumnProofs Bcf.Lazy Bcf.File Bcf.FileProofs.
+  Bcf.RecordTyped Bcf.Bridge Bcf.BridgeProofs Bcf.ColumnProofs Bcf.Lazy Bcf.LazySiteProofs Bcf.LazyEagerProofs Bcf.File Bcf.FileProofs.
 
 (* The line reader of the header text (header/vcf_header.rs + read_line): the written lines, each
    followed by LF, then the NUL, are split into exactly those lines, whatever follows the NUL.
@@ -1604,9 +1604,8 @@ Proof. exact file_roundtrip_gen. Qed.
 Print Assumptions c10_file_roundtrip_gen.
 
 (* ... and through the LAZY path (read_record + RecordBuf::try_from_variant_record =
-   lazy_read_hdr).  PARTIAL: the per-record premise is the lazy read-back of each written record
-   (rec_rt_lazy); it is connected to the eager read-back only record-wise and up to trec_norm
-   (c10_lazy_eq_eager, under lazy_agree), not yet at file level. *)
+   lazy_read_hdr), from the per-record LAZY read-back of each written record (rec_rt_lazy); from the
+   eager domain: c10_file_roundtrip_lazy below. *)
 Theorem c10_file_roundtrip_lazy_partial : forall hd rs backs bs,
   header_ok hd -> hdr_defs_ok hd = true -> hdr_vals_framed hd ->
   (forall s c, maps_of_header hd = Some (s, c) -> Forall2 (rec_rt_lazy s c (hctx_of_header hd)) rs backs) ->
@@ -1615,12 +1614,40 @@ Theorem c10_file_roundtrip_lazy_partial : forall hd rs backs bs,
 Proof. exact file_roundtrip_lazy_gen. Qed.
 Print Assumptions c10_file_roundtrip_lazy_partial.
 
+(* LAZY FILE = EAGER FILE.  On a byte stream (byte_list) whose records, at the record boundaries the
+   loop visits, are in lazy_agree (file_agree: a decidable predicate of the stream; lazy_agree is only
+   the eager MODEL's limit that a Character is one ASCII byte, c10_lazy_agree_is_ascii): whenever
+   read_header + the read_record_buf loop return (header, records, Ok(0)), read_header + the
+   read_record / try_from_variant_record loop return the same header and as many records, each with
+   the same content (NV.Bcf.Bridge.content), and end with Ok(0) too.  Any stream, written by noodles
+   or not. *)
+Theorem c10_file_lazy_eq_eager : forall bs hd backs,
+  byte_list bs -> file_agree bs = true ->
+  bcf_read_file bs = FOk (hd, (backs, EndEof)) ->
+  exists lbacks, bcf_read_file_lazy bs = FOk (hd, (lbacks, EndEof)) /\
+                 Forall2 (same_content (h_v44 (hctx_of_header hd))) lbacks backs.
+Proof. exact file_lazy_of_eager. Qed.
+Print Assumptions c10_file_lazy_eq_eager.
+
+(* ... hence the file round trip through the lazy path, from the EAGER domain of c10_file_roundtrip *)
+Theorem c10_file_roundtrip_lazy : forall hd rs backs bs,
+  header_ok hd -> hdr_defs_ok hd = true -> hdr_vals_framed hd ->
+  (forall s c, maps_of_header hd = Some (s, c) -> Forall2 (file_rec_dom s c (hctx_of_header hd)) rs backs) ->
+  bcf_write_file hd rs = Ok bs ->
+  byte_list bs -> file_agree bs = true ->
+  exists lbacks, bcf_read_file_lazy bs = FOk (hd, (lbacks, EndEof)) /\
+                 Forall2 (same_content (h_v44 (hctx_of_header hd))) lbacks backs.
+Proof. exact file_roundtrip_lazy. Qed.
+Print Assumptions c10_file_roundtrip_lazy.
+
+(* still unproved: that the two premises on the WRITTEN bytes follow from the record domain (every
+   string of a record of file_rec_dom is a byte string; its Characters are ASCII) *)
 Definition c10_file_roundtrip_lazy_full_statement : Prop := forall hd rs backs bs,
   header_ok hd -> hdr_defs_ok hd = true -> hdr_vals_framed hd ->
   (forall s c, maps_of_header hd = Some (s, c) -> Forall2 (file_rec_dom s c (hctx_of_header hd)) rs backs) ->
   bcf_write_file hd rs = Ok bs ->
   exists lbacks, bcf_read_file_lazy bs = FOk (hd, (lbacks, EndEof)) /\
-    Forall2 (fun l e => content (h_v44 (hctx_of_header hd)) l = content (h_v44 (hctx_of_header hd)) e) lbacks backs.
+    Forall2 (same_content (h_v44 (hctx_of_header hd))) lbacks backs.
 
 (* non-vacuity: a VCF 4.3 header with a contig, an INFO Integer with an explicit IDX, a FILTER, a
    FORMAT key and one sample; a record with that INFO field, GT and DP; the stream is written, and
@@ -1635,11 +1662,11 @@ Example c10_file_example :
   exists bs, bcf_write_file exf_h [(1, exf_r); (1, exf_r)] = Ok bs /\
     bcf_read_file bs = FOk (exf_h, ([exf_r; exf_r], EndEof)) /\
     bcf_read_file_lazy bs = FOk (exf_h, ([exf_r; exf_r], EndEof)) /\
-    read_prefix (firstn 7 bs) = FEof /\ read_prefix (firstn 40 bs) = FData /\
+    read_prefix (firstn 7 bs) = FEof /\ read_prefix (firstn 40 bs) = FData /\ file_agree bs = true /\
     header_ok exf_h /\ hdr_defs_ok exf_h = true /\ hdr_vals_framed exf_h.
 Proof.
   eexists. split; [vm_compute; reflexivity|]. split; [vm_compute; reflexivity|].
   split; [vm_compute; reflexivity|]. split; [vm_compute; reflexivity|]. split; [vm_compute; reflexivity|].
-  split; [exact exf_ok|]. split; [vm_compute; reflexivity|exact exf_framed].
+  split; [vm_compute; reflexivity|]. split; [exact exf_ok|]. split; [vm_compute; reflexivity|exact exf_framed].
 Qed.
 (* ==== end file ==== *)
